@@ -466,6 +466,24 @@ def observe_all(w, st, V, out):
                 V(gsite, 'selection_mismatch', 'c[%s %s] on list %s holds %s, expected %s' % (form, idxs, L, got, want),
                   params_extra={'form': form})
             out.add('sel:%s:%d' % (form, len(want)))
+    # boolean masks of the cadence's length (numpy index-array semantics: the frames where the mask is set, in order)
+    import itertools as _it
+    for mask in (_it.product((False, True), repeat=n) if 1 <= n <= 5 else ()):
+        want = [L[k] for k in range(n) if mask[k]]
+        for form in ('list', 'ndarray'):
+            ne += 1
+            arg = list(mask) if form == 'list' else np.array(mask, dtype=bool)
+            try:
+                r = cad[arg]
+            except Exception as e:
+                V(gsite, 'selection_raised', 'c[%s mask %s] on list %s raised %s: %s (expected the frames where the mask is set: %s)'
+                  % (form, list(mask), L, type(e).__name__, e, want), params_extra={'form': form})
+                continue
+            got = w.names(list(r.frames))
+            if type(r) is not type(cad) or got != want:
+                V(gsite, 'selection_mismatch', 'c[%s mask %s] on list %s holds %s, expected %s' % (form, list(mask), L, got, want),
+                  params_extra={'form': form})
+            out.add('sel:mask:%d' % len(want))
     # selection by label
     amb = 0
     if st['ordered']:
